@@ -4556,6 +4556,9 @@ void SymbolDatabase::printXml(std::ostream &out) const
                     outs += "        <var id=\"";
                     outs += id_string(&*var);
                     outs += "\"/>\n";
+                    // every variable named in a varlist is emitted in <variables> (members of an
+                    // anonymous union are copied into the enclosing scope and share a varId)
+                    variables.insert(&*var);
                 }
                 outs += "      </varlist>\n";
             }
